@@ -17,10 +17,23 @@ import (
 )
 
 type (
-	WaitGroup = sync.WaitGroup
-	Cond      = sync.Cond
-	Locker    = sync.Locker
+	Cond   = sync.Cond
+	Locker = sync.Locker
 )
+
+// WaitGroup is the real WaitGroup (waiting on it is "blocking outside the simulator", see simrt)
+// plus a Go method whose goroutine becomes a simulated task.
+type WaitGroup struct {
+	sync.WaitGroup
+}
+
+func (wg *WaitGroup) Go(f func()) {
+	wg.Add(1)
+	simrt.Go(func() {
+		defer wg.Done()
+		f()
+	})
+}
 
 // Map replaces sync.Map: the real map with a decision point before and after every operation, so
 // that the scheduler can run another task between, say, a LoadOrStore that publishes an entry and
